@@ -17,7 +17,10 @@ import (
 func VerifC12_Crash() {
 	installWorld()
 	verifrt.InstallDirListing()
-	w := newWorld(true, config.CRLFetchModeActively, true, config.SignatureValidationModeVerify)
+	// every signature mode: under verify_log / none a list that does not verify is accepted, so it may
+	// legitimately be what the disk holds after the crash - but never a part of it
+	sig := []config.SignatureValidationMode{config.SignatureValidationModeVerify, config.SignatureValidationModeVerifyLog, config.SignatureValidationModeNone}[verifrt.Choose(verifrt.Param("sigmodes", 3))]
+	w := newWorld(true, config.CRLFetchModeActively, true, sig)
 	sOld, sBoth, sNew := sym("s_old"), sym("s_both"), sym("s_new")
 	verifrt.Assume(sOld.Cmp(sBoth) != 0)
 	verifrt.Assume(sOld.Cmp(sNew) != 0)
@@ -30,6 +33,9 @@ func VerifC12_Crash() {
 	if rejected {
 		if verifrt.Choose(2) == 0 {
 			nw.sigOK = false
+			if sig != config.SignatureValidationModeVerify {
+				rejected = false // the lax modes accept a list whose signer cannot be verified
+			}
 		} else {
 			nw.rejectAtEnd = true
 		}
